@@ -633,3 +633,22 @@ package main
 //@ func (*RuntimeState).postAuthSSHCertHandler
 //@   atcall golang.org/x/crypto/ssh.PublicKey).Type sets ghostSSHKeyType string (k ssh.PublicKey, name string) :: name
 //@   atcall (*RuntimeState).writeFailureResponse requires (s2 *RuntimeState, w2 http.ResponseWriter, r2 *http.Request, code int, msg string) :: code == 422 ==> ghostSSHKeyType == "ssh-ed25519" && state.Ed25519Signer == nil   #C19.only-ed25519-can-be-refused-by-type @C19
+
+// ---- C05/C06: a fresh session cookie is minted only for the user who just proved who they are --------------------
+// three producers: the login form (password accepted for that user: password level), the federated-login callback
+// (identity asserted by the configured provider: federated level, named clause), and the CLI hand-over (the
+// authenticated user's own unexpired CLI token: CLI level only)
+//@ func (*RuntimeState).genNewSerializedAuthJWT
+//@   requires (ghostPasswordOK && username == ghostPasswordUser && authLevel == AuthTypePassword) || (ghostAuthed && username == ghostAuthUser && authLevel == AuthTypeWebauthForCLI && ghostCLITokenUser == username && ghostCLITokenLive)   #C05.mint-only-own-session @C05,C06
+//@ ghost var ghostCLITokenUser string
+//@ ghost var ghostCLITokenLive bool
+//@ func (*RuntimeState).SendAuthDocumentHandler
+//@   atcall (*RuntimeState).getAuthInfoFromJWT sets ghostCLITokenUser string (s2 *RuntimeState, tok string, kind string, info authInfo, err2 error) :: info.Username if err2 == nil && kind == "keymaster_webauth_for_cli_identity"
+//@   atcall time.Until sets ghostCLITokenLive bool (t time.Time, d time.Duration) :: d >= 0
+//@ func (*RuntimeState).setNewAuthCookie
+//@   requires (ghostPasswordOK && username == ghostPasswordUser && authlevel == AuthTypePassword) || authlevel == AuthTypeFederated   #C05.set-cookie-after-password-or-federation @C05,C06
+//@   atcall (*RuntimeState).genNewSerializedAuthJWT overrides C05.mint-only-own-session (s2 *RuntimeState, username2 string, authLevel2 int, durationSeconds int64) :: username2 == username && authLevel2 == authlevel   #C05.set-cookie-passes-through @C05,C06
+//@ func (*RuntimeState).oauth2RedirectPathHandler
+//@   atcall (*RuntimeState).setNewAuthCookie requires (s2 *RuntimeState, w2 http.ResponseWriter, username2 string, authlevel2 int) :: authlevel2 == AuthTypeFederated   #C05.federated-identity-from-configured-provider @C05,C06
+//@ func (*RuntimeState).loginHandler
+//@   atcall (*RuntimeState).setNewAuthCookie requires (s2 *RuntimeState, w2 http.ResponseWriter, username2 string, authlevel2 int) :: authlevel2 == AuthTypePassword   #C05.login-mints-password-level @C05,C06
